@@ -500,6 +500,8 @@ def eq(a, b):
         return a is b
     if isinstance(a, (int, float)) and isinstance(b, (int, float)):
         return a == b
+    if isinstance(a, str) and isinstance(b, str):
+        return a == b  # jsonable() placeholders of non-numeric values
     return False
 
 
